@@ -19,7 +19,7 @@ use serde::Serialize;
 use crate::eds::{AxisType, ExtendedDataSquare};
 use crate::nmt::NamespaceProof;
 use crate::row::{ROW_ID_SIZE, RowId};
-use crate::{DataAvailabilityHeader, Error, Result, Share, bail_validation};
+use crate::{DataAvailabilityHeader, Error, Result, Share, bail_validation, bail_verification};
 
 pub use celestia_proto::shwap::Sample as RawSample;
 
@@ -134,6 +134,24 @@ impl Sample {
                 .column_root(id.column_index())
                 .ok_or(Error::EdsIndexOutOfRange(0, id.column_index()))?,
         };
+
+        // the proof must be for the exact position of the share in the row / column
+        let index = match self.proof_type {
+            AxisType::Row => id.column_index(),
+            AxisType::Col => id.row_index(),
+        };
+
+        if self.proof.start_idx() != u32::from(index)
+            || self.proof.end_idx() != u32::from(index) + 1
+        {
+            bail_verification!(
+                "sample proof is for range {}..{}, expected {}..{}",
+                self.proof.start_idx(),
+                self.proof.end_idx(),
+                index,
+                u32::from(index) + 1,
+            );
+        }
 
         self.proof
             .verify_range(&root, &[&self.share], *self.share.namespace())
